@@ -6,6 +6,7 @@ import (
 	"go/constant"
 	"go/token"
 	"go/types"
+	"regexp"
 	"sort"
 	"strings"
 )
@@ -73,6 +74,11 @@ func (t *Term) Key() string {
 }
 
 func (t *Term) String() string { return t.Key() }
+
+var objIDRe = regexp.MustCompile(`#[0-9]+`)
+
+// Pretty is the key without the object identities (for messages).
+func (t *Term) Pretty() string { return objIDRe.ReplaceAllString(t.Key(), "") }
 
 func objKey(o types.Object) string {
 	if o == nil {
